@@ -105,8 +105,79 @@ def call_sites(F, icsigs, by_sig):
     return out
 
 
+def lock_states(F):
+    """must-analysis on the CFG of F: is the collector suspended by F itself (a janet_gclock not yet undone by a janet_gcunlock
+    on EVERY path from the entry) at the entry of each block"""
+    preds = {B.label: [] for B in F.blocks}
+    for B in F.blocks:
+        for s_ in B.succs:
+            preds[s_].append(B.label)
+
+    def transfer(B, st):
+        for x in B.insts:
+            if x.kind == "call" and x.callee == "janet_gclock":
+                st = True
+            elif x.kind == "call" and x.callee == "janet_gcunlock":
+                st = False
+        return st
+    entry = F.blocks[0].label
+    IN = {B.label: True for B in F.blocks}
+    IN[entry] = False
+    changed = True
+    while changed:
+        changed = False
+        for B in F.blocks:
+            if B.label == entry:
+                v = False
+            else:
+                v = bool(preds[B.label]) and all(transfer(F.bmap[q], IN[q]) for q in preds[B.label])
+            if v != IN[B.label]:
+                IN[B.label] = v
+                changed = True
+    return IN
+
+
+def unlocked_graph(names, succ, m, ir, by_sig):
+    """the call edges that exist at a call site OUTSIDE every janet_gclock .. janet_gcunlock region of the caller; -> (succ_u, lock users, number of locked sites)"""
+    succ_u, users, nlocked = {}, [], 0
+    for a in names:
+        F = m.functions[a]
+        if not any(x.kind == "call" and x.callee == "janet_gclock" for B in F.blocks for x in B.insts):
+            succ_u[a] = set(succ[a])
+            continue
+        users.append(a)
+        IN = lock_states(F)
+        sd = {(l, j): cs for l, j, cs, _ in call_sites(F, list(ir.funcs[a]["icalls"]), by_sig)}
+        s = set()
+        for B in F.blocks:
+            st = IN[B.label]
+            for j, x in enumerate(B.insts):
+                if x.kind == "call" and x.callee == "janet_gclock":
+                    st = True
+                elif x.kind == "call" and x.callee == "janet_gcunlock":
+                    st = False
+                if (B.label, j) in sd:
+                    if st and x.callee not in ("janet_gclock", "janet_gcunlock"):
+                        nlocked += 1
+                    else:
+                        s.update(c for c in sd[(B.label, j)] if c in ir.funcs)
+                if not st:
+                    s.update(r for r in x.refs if r in ir.funcs)
+        succ_u[a] = s
+    return succ_u, users, nlocked
+
+
 def extract(build):
     names, succ, m, ir, by_sig = graph(build)
+    succ_u, lock_users, nlocked = unlocked_graph(names, succ, m, ir, by_sig)
+    for a in names:
+        if not succ_u[a] <= succ[a]:
+            raise ExtractError("unlocked call edges of %s are not a subset of its call edges" % a)
+    for need in ("janet_gclock", "janet_gcunlock"):
+        if need not in succ:
+            raise ExtractError("%s not found in the IR" % need)
+    if "janet_call" not in lock_users or "run_vm" in succ_u["janet_call"]:
+        raise ExtractError("janet_call does not run the interpreter under janet_gclock")
     idx = {n: i for i, n in enumerate(names)}
     if len(names) >= 4096:
         raise ExtractError("more than 4095 functions: edge encoding too narrow")
@@ -121,6 +192,7 @@ def extract(build):
     if not set(deinit_callers) <= {"janet_sweep", "janet_clear_memory"} or "janet_sweep" not in deinit_callers:
         raise ExtractError("janet_deinit_block is called by %s (expected: janet_sweep, janet_clear_memory)" % deinit_callers)
     may = backward(succ, "janet_collect")
+    may_u = backward(succ_u, "janet_collect")      # reachable without passing a call site inside a gclock region
     alloc = backward(succ, "janet_gcalloc")
     # ---- family
     fam = []
@@ -175,7 +247,7 @@ def extract(build):
             raise ExtractError("callee %s of a builder window is neither defined nor declared" % c)
     # ---- allocation -> collection windows inside the functions that can collect (listed, not certified)
     may_windows = []
-    for name in sorted(may):
+    for name in sorted(may_u):
         F = m.functions[name]
         reach = {}
         for B in F.blocks:
@@ -193,20 +265,24 @@ def extract(build):
             if not ra or not any(c in alloc for c in ca):
                 continue
             for lc, jc, cc, _ in sites:
-                if any(c in may for c in cc) and ((lc == la and jc > ja) or lc in reach[la]):
+                if any(c in may_u for c in cc) and ((lc == la and jc > ja) or lc in reach[la]):
                     n += 1
         may_windows.append((name, n))
     return dict(names=names, idx=idx, succ=succ, may=may, alloc=alloc, family=fam, family_closure=sorted(clo), rows=sorted(rows),
-                escapes=sorted(escapes), may_windows=may_windows, declared=ir.declared)
+                escapes=sorted(escapes), may_windows=may_windows, declared=ir.declared, succ_u=succ_u, may_u=may_u, lock_users=lock_users,
+                locked_sites=nlocked)
 
 
 def render(build):
     g = extract(build)
     names, idx = g["names"], g["idx"]
-    edges = sorted(idx[a] * 4096 + idx[b] for a, s in g["succ"].items() for b in s)
-    mask = 0
+    edges = sorted(idx[a] * 4096 + idx[b] for a, s in g["succ_u"].items() for b in s)
+    edges_locked = sorted(idx[a] * 4096 + idx[b] for a, s in g["succ"].items() for b in s if b not in g["succ_u"][a])
+    mask = mask_u = 0
     for f in g["may"]:
         mask |= 1 << idx[f]
+    for f in g["may_u"]:
+        mask_u |= 1 << idx[f]
     ext_rows = sorted(set(r for r in g["rows"] if r[2] not in idx))
     rows = [r for r in g["rows"] if r[2] in idx]
     L = [lean_header("whole-program LLVM IR of the bootstrapped amalgamation: call graph"), "namespace JanetModel.Gen.GCRoot\n"]
@@ -218,15 +294,22 @@ def render(build):
     if "run_vm" not in idx or "janet_collect" not in g["succ"]["run_vm"]:
         raise ExtractError("run_vm does not call janet_collect directly (the interpreter's safepoints)")
     L.append("abbrev runVmId : Nat := %d   -- run_vm (calls janet_collect at its safepoints)\n" % idx["run_vm"])
-    L.append("/-- every call edge caller * 4096 + callee: direct calls, indirect calls to every address-taken function of the same")
-    L.append("function type, and caller -> g where the caller's body mentions the address of g -/")
+    L.append("/-- call edges caller * 4096 + callee: direct calls, indirect calls to every address-taken function of the same function")
+    L.append("type, and caller -> g where the caller's body mentions the address of g.  `edgesU`: the edges that exist at a call site")
+    L.append("OUTSIDE every janet_gclock .. janet_gcunlock region of the caller (must-analysis on the caller's control-flow graph);")
+    L.append("`edgesLocked`: the edges that exist only at call sites inside such a region (%d call sites, in %s) -/" % (g["locked_sites"], ", ".join(g["lock_users"])))
     CH = 512     # a single list literal of several thousand elements exceeds the elaborator's recursion depth
     chunks = [edges[i:i + CH] for i in range(0, len(edges), CH)]
     for k, ch in enumerate(chunks):
-        L.append("def edges%d : List Nat := [\n  " % k + ",\n  ".join(", ".join(str(e) for e in ch[i:i + 16]) for i in range(0, len(ch), 16)) + "]")
-    L.append("def edges : List Nat := " + " ++ ".join("edges%d" % k for k in range(len(chunks))) + "\n")
+        L.append("def edgesU%d : List Nat := [\n  " % k + ",\n  ".join(", ".join(str(e) for e in ch[i:i + 16]) for i in range(0, len(ch), 16)) + "]")
+    L.append("def edgesU : List Nat := " + " ++ ".join("edgesU%d" % k for k in range(len(chunks))))
+    L.append("def edgesLocked : List Nat := [" + ", ".join(str(e) for e in edges_locked) + "]")
+    L.append("def edges : List Nat := edgesU ++ edgesLocked")
+    L.append("abbrev lockUsers : List Nat := [" + ", ".join(str(idx[n]) for n in g["lock_users"]) + "]\n")
     L.append("/-- UNTRUSTED certificate: bit f set = function f is claimed to be able to reach janet_collect (%d functions) -/" % len(g["may"]))
-    L.append("abbrev mayCollectMask : Nat := 0x%x\n" % mask)
+    L.append("abbrev mayCollectMask : Nat := 0x%x" % mask)
+    L.append("/-- ... and the same over `edgesU`: able to reach janet_collect while no frame of the chain holds the collector suspended (%d functions) -/" % len(g["may_u"]))
+    L.append("abbrev mayCollectUnlockedMask : Nat := 0x%x\n" % mask_u)
     L.append("/-- the delimited family (value builders, marshal / unmarshal, PEG compilation, parser) and everything it can call -/")
     L.append("abbrev family : List Nat := [" + ", ".join(str(idx[n]) for n in g["family"]) + "]")
     L.append("abbrev familyClosure : List Nat := [" + ", ".join(str(idx[n]) for n in g["family_closure"]) + "]\n")
@@ -238,14 +321,15 @@ def render(build):
     L.append("abbrev beginEndExternal : List String := [" + ", ".join('"%s: %s .. %s"' % r for r in ext_rows) + "]")
     L.append("/-- builder calls whose unfinished object can leave the function without passing the matching `_end` -/")
     L.append("abbrev beginEndEscapes : List (Nat × Nat) := [" + ", ".join("(%d, %d)" % (idx[a], idx[b]) for a, b in g["escapes"]) + "]\n")
-    L.append("/-- the functions that can be interrupted by a collection, each with the number of (value-returning call that can")
+    L.append("/-- the functions that can be interrupted by a collection (unsuspended), each with the number of (value-returning call that can")
     L.append("allocate, later call that can collect) pairs on its control-flow graph: the windows NOT certified statically -/")
     L.append("abbrev mayWindows : List (Nat × Nat) := [" + ", ".join("(%d, %d)" % (idx[n], k) for n, k in g["may_windows"]) + "]\n")
     L.append("end JanetModel.Gen.GCRoot\n")
-    info = dict(functions=len(names), call_edges=len(edges), may_collect=len(g["may"]), can_allocate=len(g["alloc"]), family=len(g["family"]),
+    info = dict(functions=len(names), call_edges=len(edges) + len(edges_locked), call_edges_only_under_gclock=len(edges_locked), call_sites_under_gclock=g["locked_sites"],
+                gclock_users=g["lock_users"], may_collect_any_path=len(g["may"]), may_collect=len(g["may_u"]), can_allocate=len(g["alloc"]), family=len(g["family"]),
                 family_closure=len(g["family_closure"]), begin_end_rows=len(rows), begin_end_functions=len(set(r[0] for r in rows)),
                 begin_end_external=len(ext_rows), begin_end_escapes=["%s: %s" % e for e in g["escapes"]],
                 may_collect_functions_without_window=sum(1 for _, k in g["may_windows"] if k == 0),
                 uncertified_window_pairs={n: k for n, k in g["may_windows"] if k},
-                may_collect_names=sorted(g["may"]))
+                may_collect_names=sorted(g["may_u"]), function_names=names)
     return "\n".join(L), info
